@@ -186,7 +186,13 @@ def build_exception(case):
         return None, "unformattable"
     for k, v in case["attrs"]:
         try:
-            setattr(e, k, dec(v))
+            if hasattr(type(e), k):
+                return None, "attr-name-is-class-member"     # a slot / descriptor of the class, not a custom attribute
+            if k == "__notes__" and isinstance(v, list) and v and all(isinstance(n, str) for n in v) and hasattr(e, "add_note"):
+                for n in v:
+                    e.add_note(n)                             # PEP 678: notes live in vars(e)["__notes__"]
+            else:
+                e.__dict__[k] = dec(v)                        # any string can be a key of __dict__
         except BaseException as x:
             return None, "setattr-rejects:" + type(x).__name__
     try:
@@ -204,6 +210,27 @@ def build_exception(case):
 STATE = {"exc": None, "calls": 0}
 
 
+ENTRY_NAMES = ["boom_batch", "boom", "prop", "stream_body", "next_item"]
+ENTRY_RE = re.compile(r"\bin (%s)\b" % "|".join(ENTRY_NAMES))
+
+
+def entry_of(kind, exc):
+    """name of the server-side function that raises for this call kind"""
+    if kind == "stream":
+        return "next_item" if isinstance(exc, StopIteration) else "stream_body"
+    return {"plain": "boom", "attr": "prop", "batch": "boom_batch"}[kind]
+
+
+def tb_token(tb):
+    """reduce traceback text to the entry point of the call it describes: the frames of the current call come
+    first (frames left on a re-raised instance by earlier raises follow them)"""
+    if not tb:
+        return None
+    text = "".join(tb) if isinstance(tb, (list, tuple)) and all(isinstance(t, str) for t in tb) else str(tb)
+    m = ENTRY_RE.search(text)
+    return "TB:" + (m.group(1) if m else "?")
+
+
 def make_server():
     import Pyro5.api as api
 
@@ -214,11 +241,14 @@ def make_server():
         def __iter__(self):
             return self
 
+        def next_item(self):
+            raise STATE["exc"]
+
         def __next__(self):
             self.n += 1
             if self.n == 1:
                 return 1
-            raise STATE["exc"]
+            self.next_item()
 
     @api.expose
     class Target(object):
@@ -227,6 +257,10 @@ def make_server():
             return k
 
         def boom(self):
+            STATE["calls"] += 1
+            raise STATE["exc"]
+
+        def boom_batch(self):
             STATE["calls"] += 1
             raise STATE["exc"]
 
@@ -242,10 +276,10 @@ def make_server():
             if isinstance(STATE["exc"], StopIteration):
                 return RaisingIterator()      # a generator would turn it into RuntimeError (PEP 479) on the server
 
-            def g():
+            def stream_body():
                 yield 1
                 raise STATE["exc"]
-            return g()
+            return stream_body()
     return Target()
 
 
@@ -285,7 +319,7 @@ def dec_plain(v):
         return object()
 
 
-def classify(x, sent_any, canon=None):
+def classify(x, sent_any, canon=None, unanswered=True):
     """observed client-side exception -> outcome dict"""
     import Pyro5.errors as errors
     q = qn(type(x))
@@ -298,14 +332,14 @@ def classify(x, sent_any, canon=None):
             orig = m.group(1)
             if "." not in orig:
                 orig = "builtins." + orig
-            return {"o": "fallback", "cls": q, "orig": orig, "tb": True}
+            return {"o": "fallback", "cls": q, "orig": orig, "tb": True, "tbtok": tb_token(tb)}
         if any(s in msg for s in SER_MSGS) and len(x.args) == 1:
             return {"o": "sererr", "cls": q}
         probe = (canon or {}).get("serr")
         if probe and q == probe["cls"] and not (q == canon["cls"] and repr(x.args) == repr(tuple(dec_plain(a) for a in canon["args"]))):
             return {"o": "sererr", "cls": q}     # the error the serializer library raises for this content (measured by probe_dumps)
         try:
-            attrs = [[k, ("TB" if k == "_pyroTraceback" else enc(v))] for k, v in vars(x).items()]
+            attrs = [[k, (tb_token(v) if k == "_pyroTraceback" else enc(v))] for k, v in vars(x).items()]
             return {"o": "raised", "cls": q, "args": [enc(a) for a in x.args], "attrs": attrs}
         except ValueError:
             return {"o": "raised-outside-domain", "cls": q, "repr": repr(x)[:200]}
@@ -315,11 +349,60 @@ def classify(x, sent_any, canon=None):
         return {"o": "fallback", "cls": q, "orig": orig if "." in orig else "builtins." + orig, "tb": False}
     if not sent_any:
         return {"o": "local", "cls": q}
-    if type(x) is errors.ConnectionClosedError:
+    if type(x) is errors.ConnectionClosedError and unanswered:
         return {"o": "lost"}
-    if type(x) is errors.TimeoutError:
-        return {"o": "timeout"}
+    if type(x) is errors.TimeoutError and unanswered:
+        # the loopback socket raises its read timeout only when nothing arrived AND the server side is still open
+        return {"o": "hang"}
     return {"o": "client", "cls": q, "msg": msg[:200]}
+
+
+def do_call(p, kind, before, obs):
+    import Pyro5.api as api
+    if kind == "plain":
+        obs["values"].append(p.boom())
+    elif kind == "attr":
+        obs["values"].append(p.prop)
+    elif kind == "stream":
+        it = p.gen()
+        obs["it"] = it
+        first = it.__next__()
+        if first != 1:
+            obs["values"].append(first)
+        obs["values"].append(it.__next__())
+    elif kind == "batch":
+        b = api.BatchProxy(p)
+        for i in range(before):
+            b.ok(100 + i)
+        b.boom_batch()
+        b.ok(999)
+        for r in b():
+            if r == 100 + obs["before"] and obs["before"] < before:
+                obs["before"] += 1
+            else:
+                obs["values"].append(r)
+    else:
+        raise ValueError(kind)
+
+
+def run_prior(rig, case, exc):
+    """history: the same exception INSTANCE is first raised by an earlier call of another kind (own proxy)"""
+    import Pyro5.api as api
+    STATE["exc"] = exc
+    with Net(rig.daemon):
+        p = api.Proxy(rig.uri)
+        p._pyroSerializer = case.get("prior_ser", case["ser"])
+        p._pyroTimeout = 1
+        o = {"before": 0, "values": []}
+        try:
+            do_call(p, case["prior"], 1, o)
+        except BaseException:
+            pass
+        finally:
+            if o.get("it") is not None:
+                o["it"].proxy = None
+            p._pyroRelease()
+    STATE["exc"] = None
 
 
 def run_call(rig, case, exc, canon=None):
@@ -331,40 +414,15 @@ def run_call(rig, case, exc, canon=None):
         p = api.Proxy(rig.uri)
         p._pyroSerializer = case["ser"]
         p._pyroTimeout = 1
-        it = None
         try:
             p._pyroBind()
             c = net.conns[max(net.conns)]
-            nreq = len(c.requests)
-            kind = case["kind"]
+            nreq, nrep = len(c.requests), len(c.replies)
             try:
-                if kind == "plain":
-                    obs["values"].append(p.boom())
-                elif kind == "attr":
-                    obs["values"].append(p.prop)
-                elif kind == "stream":
-                    it = p.gen()
-                    first = it.__next__()
-                    if first != 1:
-                        obs["values"].append(first)
-                    obs["values"].append(it.__next__())
-                elif kind == "batch":
-                    b = api.BatchProxy(p)
-                    k = case.get("before", 0)
-                    for i in range(k):
-                        b.ok(100 + i)
-                    b.boom()
-                    b.ok(999)
-                    for r in b():
-                        if r == 100 + obs["before"] and obs["before"] < k:
-                            obs["before"] += 1
-                        else:
-                            obs["values"].append(r)
-                else:
-                    raise ValueError(kind)
+                do_call(p, case["kind"], case.get("before", 0), obs)
                 obs["out"] = {"o": "returned", "values": repr(obs["values"])[:200]}
             except BaseException as x:
-                obs["out"] = classify(x, len(c.requests) > nreq, canon)
+                obs["out"] = classify(x, len(c.requests) > nreq, canon, unanswered=(len(c.requests) - nreq) > (len(c.replies) - nrep))
                 obs["exc_is_pyroerror"] = any(qn(b) == "Pyro5.errors.PyroError" for b in type(x).__mro__)
                 obs["exc_str"] = str(x)[:400]
             obs["client_conn"] = p._pyroConnection is not None
@@ -376,6 +434,7 @@ def run_call(rig, case, exc, canon=None):
                 obs["next_ok"] = False
                 obs["next_exc"] = qn(type(x))
         finally:
+            it = obs.pop("it", None)
             if it is not None:
                 it.proxy = None
             p._pyroRelease()
